@@ -5,6 +5,8 @@ EXTENDS Integers, Sequences, FiniteSets, TLC
 CONSTANTS Enq, Wrk, NTasks,     \* NTasks[e] = tasks enqueued by enqueuer e
           UNIQUE_BUSY,         \* fact probed from the running code: the busy marker of a clear transaction is unique per transaction
                                \* (the address of a local of try_clear_if); FALSE = one shared constant
+          CLEAR_CHECKED,       \* fact probed from the running code (probe_publish): TRUE = the final step of a clear transaction is a CAS on the transaction's own busy
+                               \* marker (it fails if a publisher aborted the transaction); FALSE = it stores UNSET unconditionally
           PUBLISH_GUARDED      \* fact probed from the running code (probe_publish): FALSE = a publisher (enqueue, task::resume) always runs test_and_set, which
                                \* aborts a clear transaction in flight (busy -> SET); TRUE = it acts only on an arena that looks empty (is_empty())
 (* --algorithm poolstate {
@@ -39,7 +41,7 @@ CONSTANTS Enq, Wrk, NTasks,     \* NTasks[e] = tasks enqueued by enqueuer e
     W3: if (flag = S) { flag := Busy(self); goto W4 } else { goto W8 };
     W4: has := (fifo > 0);                              \* has_tasks(): relaxed loads of the population words
         if (~has) { goto W5 } else { goto W6 };
-    W5: if (flag = Busy(self)) { flag := U; goto W7 } else { goto W8 };
+    W5: if (~CLEAR_CHECKED \/ flag = Busy(self)) { flag := U; goto W7 } else { goto W8 };
     W6: if (flag = Busy(self)) { flag := S }; goto W8;
     W7: demand := demand - 1;                           \* request_workers(-max)
     \* a worker keeps looping while the arena is not empty and it is not recalled; it leaves when recalled (demand = 0) or when there is nothing to do
@@ -183,7 +185,7 @@ W4(self) == /\ pc[self] = "W4"
             /\ UNCHANGED << fifo, flag, demand, executed, inArena, n, s, st >>
 
 W5(self) == /\ pc[self] = "W5"
-            /\ IF flag = Busy(self)
+            /\ IF ~CLEAR_CHECKED \/ flag = Busy(self)
                   THEN /\ flag' = U
                        /\ pc' = [pc EXCEPT ![self] = "W7"]
                   ELSE /\ pc' = [pc EXCEPT ![self] = "W8"]
